@@ -178,4 +178,222 @@ example : validationErrors ⟨relateSpec, fun _ => false⟩
     (.line ⟨.nan, .fin 0⟩ ⟨.nan, .fin 0⟩) = [.ln (.nonFinite 0), .ln (.nonFinite 1)] := by
   rw [validationErrors_eq]; decide
 
+/-! ## 3. Ring-local clauses -/
+
+private theorem ceq_ofPt (a b : Pt) : ceq (XPt.ofPt a) (XPt.ofPt b) = (a == b) := by
+  cases a; cases b
+  rw [Bool.eq_iff_iff]
+  simp [ceq, feq, XPt.ofPt, Pt.mk.injEq]
+
+private theorem go_len (l : List Pt) : ∀ a : Pt,
+    (dedupBy.go ceq (XPt.ofPt a) (l.map XPt.ofPt)).length + 1 = (dedupConsecutive (a :: l)).length := by
+  induction l with
+  | nil => intro a; simp [dedupBy.go, dedupConsecutive]
+  | cons b t ih =>
+    intro a
+    simp only [List.map_cons, dedupBy.go, dedupConsecutive, ceq_ofPt]
+    by_cases hab : a = b
+    · subst hab; simp [ih a]
+    · have hba : (b == a) = false := by simp [Ne.symm hab]
+      have hab' : (a == b) = false := by simp [hab]
+      simp [hba, hab', ih b]
+
+/-- `Vec::dedup` (keeps the first of a run, f64 equality) and the specification's
+`dedupConsecutive` (keeps the last, exact equality) leave the same number of coordinates. -/
+theorem dedup_length (r : List Pt) :
+    (dedupBy ceq (r.map XPt.ofPt)).length = (dedupConsecutive r).length := by
+  cases r with
+  | nil => simp [dedupBy, dedupConsecutive]
+  | cons a t => simp [dedupBy, go_len]
+
+/-- [T] `TooFewPointsInRing` fires exactly when fewer than 4 coordinates remain after removing
+consecutive repeats (finite ring) … -/
+theorem tooFew_iff (r : List Pt) :
+    tooFew (r.map XPt.ofPt) true = true ↔ (dedupConsecutive r).length < 4 := by
+  simp [tooFew, dedup_length]
+
+/-- [T] … and `TooFewPoints` of a LineString exactly when fewer than 2 remain. -/
+theorem tooFew_lineString_iff (r : List Pt) :
+    tooFew (r.map XPt.ofPt) false = true ↔ (dedupConsecutive r).length < 2 := by
+  simp [tooFew, dedup_length]
+
+example : tooFew ([⟨0, 0⟩, ⟨0, 0⟩, ⟨1, 1⟩, ⟨1, 1⟩, ⟨0, 0⟩].map XPt.ofPt) true = true := by
+  rw [tooFew_iff]; decide
+
+private theorem toPt?_ofPt (c : XPt) (p : Pt) (h : c.toPt? = some p) : c = XPt.ofPt p := by
+  cases c with
+  | mk x y =>
+    cases x <;> cases y <;> simp [XPt.toPt?, XPt.ofPt] at h ⊢
+    subst h
+    exact ⟨rfl, rfl⟩
+
+/-- a ring all of whose coordinates are finite is the image of its rational ring -/
+theorem ringToPts?_eq : ∀ (r : XRing) (q : List Pt), ringToPts? r = some q → r = q.map XPt.ofPt
+  | [], q, h => by
+      simp [ringToPts?] at h; subst h; rfl
+  | c :: t, q, h => by
+      simp only [ringToPts?, List.mapM_cons, Option.bind_eq_bind, Option.bind_eq_some_iff] at h
+      obtain ⟨p, hp, q', hq', hq⟩ := h
+      simp at hq
+      subst hq
+      simp only [List.map_cons]
+      rw [← toPt?_ofPt c p hp, ← ringToPts?_eq t q' hq']
+
+/-- what a `NonFiniteCoord` entry of the per-ring error list means -/
+theorem nonFinite_mem_ringErrs (o : Oracle) (role r' : Role) (ring : XRing) (i : Nat) :
+    PolyErr.nonFinite r' i ∈ ringErrs o role ring ↔
+      r' = role ∧ ∃ c, ring[i]? = some c ∧ notFinite c = true := by
+  unfold ringErrs
+  by_cases he : ring.isEmpty = true
+  · have : ring = [] := List.isEmpty_iff.mp he
+    subst this; simp
+  · simp only [he, if_false, Bool.false_eq_true, List.mem_append, List.mem_flatMap]
+    constructor
+    · rintro (h | ⟨ci, hci, hm⟩)
+      · split at h
+        · simp at h
+        · split at h <;> simp at h
+      · rw [List.mem_zipIdx_iff_getElem?] at hci
+        split at hm
+        · simp at hm
+          obtain ⟨h1, h2⟩ := hm
+          subst h1; subst h2
+          exact ⟨rfl, ci.1, hci, by assumption⟩
+        · simp at hm
+    · rintro ⟨hr, c, hc, hn⟩
+      subst hr
+      right
+      refine ⟨(c, i), ?_, ?_⟩
+      · rw [List.mem_zipIdx_iff_getElem?]; exact hc
+      · simp [hn]
+
+/-- [T] `nonFinite_iff`: the ring's error list contains a `NonFiniteCoord` exactly when the ring
+has a non-finite coordinate; and the index it carries is the index of such a coordinate. -/
+theorem nonFinite_iff (o : Oracle) (role : Role) (ring : XRing) :
+    (∃ i, PolyErr.nonFinite role i ∈ ringErrs o role ring) ↔ ∃ c ∈ ring, notFinite c = true := by
+  constructor
+  · rintro ⟨i, h⟩
+    obtain ⟨_, c, hc, hn⟩ := (nonFinite_mem_ringErrs o role role ring i).mp h
+    exact ⟨c, List.mem_of_getElem? hc, hn⟩
+  · rintro ⟨c, hc, hn⟩
+    obtain ⟨i, hi, hget⟩ := List.getElem_of_mem hc
+    exact ⟨i, (nonFinite_mem_ringErrs o role role ring i).mpr
+      ⟨rfl, c, by rw [List.getElem?_eq_getElem hi, hget], hn⟩⟩
+
+/-- what a `TooFewPointsInRing` entry of the per-ring error list means -/
+theorem tooFew_mem_ringErrs (o : Oracle) (role r' : Role) (ring : XRing) :
+    PolyErr.tooFew r' ∈ ringErrs o role ring ↔
+      r' = role ∧ ring.isEmpty = false ∧ tooFew ring true = true := by
+  unfold ringErrs
+  by_cases he : ring.isEmpty = true
+  · simp [he]
+  · simp only [he, if_false, Bool.false_eq_true, List.mem_append, List.mem_flatMap]
+    constructor
+    · rintro (h | ⟨ci, _, hm⟩)
+      · split at h
+        · simp at h; exact ⟨h, by simp at he; simp, by assumption⟩
+        · split at h <;> simp at h
+      · split at hm <;> simp at hm
+    · rintro ⟨hr, _, ht⟩
+      subst hr
+      left
+      simp [ht]
+
+/-- what a `SelfIntersection` entry of the per-ring error list means: the ring is not too short
+and the pairwise segment test fired -/
+theorem selfInt_mem_ringErrs (o : Oracle) (role r' : Role) (ring : XRing) :
+    PolyErr.selfInt r' ∈ ringErrs o role ring ↔
+      r' = role ∧ ring.isEmpty = false ∧ tooFew ring true = false ∧ selfInt o ring = true := by
+  unfold ringErrs
+  by_cases he : ring.isEmpty = true
+  · simp [he]
+  · simp only [he, if_false, Bool.false_eq_true, List.mem_append, List.mem_flatMap]
+    constructor
+    · rintro (h | ⟨ci, _, hm⟩)
+      · split at h
+        · simp at h
+        · rename_i ht
+          split at h
+          · simp at h; exact ⟨h, by simp at he; simp, by simpa using ht, by assumption⟩
+          · simp at h
+      · split at hm <;> simp at hm
+    · rintro ⟨hr, _, ht, hs⟩
+      subst hr
+      left
+      simp [ht, hs]
+
+/-! ### error soundness, ring-local: every `TooFewPointsInRing(r)` / `NonFiniteCoord(r, i)` the
+model lists names a ring (and a coordinate) that has that defect according to the specification
+(`polyErrSound`, which does not mention the model). -/
+
+private theorem getRing_roleOf (p : XPoly) (idx : Nat) : getRing p (roleOf idx) = p.rings[idx]? := by
+  cases idx with
+  | zero => simp [roleOf, getRing, XPoly.rings]
+  | succ k => simp [roleOf, getRing, XPoly.rings]
+
+private theorem tooFew_not_pair (o : Oracle) (q : Poly) (r : Role) :
+    PolyErr.tooFew r ∉ ringPairErrs o q := by
+  simp [ringPairErrs, holePairErrs]
+
+private theorem nonFinite_not_pair (o : Oracle) (q : Poly) (r : Role) (i : Nat) :
+    PolyErr.nonFinite r i ∉ ringPairErrs o q := by
+  simp [ringPairErrs, holePairErrs]
+
+/-- a ring-local entry of a polygon's error list comes from the per-ring pass over one of its
+rings, whose role it carries -/
+private theorem ringLocal_mem (o : Oracle) (p : XPoly) (e : PolyErr) (he : e ∈ polyErrs o p)
+    (hnp : ∀ q, e ∉ ringPairErrs o q) :
+    ∃ idx ring, p.rings[idx]? = some ring ∧ e ∈ ringErrs o (roleOf idx) ring := by
+  unfold polyErrs at he
+  split at he
+  · simp at he
+  · rw [List.mem_append] at he
+    rcases he with he | he
+    · rw [List.mem_flatMap] at he
+      obtain ⟨ri, hri, hm⟩ := he
+      rw [List.mem_zipIdx_iff_getElem?] at hri
+      exact ⟨ri.2, ri.1, hri, hm⟩
+    · split at he
+      · simp at he
+      · exact absurd he (hnp _)
+
+/-- [T] error soundness: `TooFewPointsInRing(role)` names an existing, non-empty ring that has
+fewer than 4 coordinates after removing consecutive repeats (or is not finite). -/
+theorem tooFew_sound (o : Oracle) (p : XPoly) (role : Role)
+    (he : PolyErr.tooFew role ∈ polyErrs o p) : polyErrSound p (.tooFew role) = true := by
+  obtain ⟨idx, ring, hring, hm⟩ := ringLocal_mem o p _ he (fun q => tooFew_not_pair o q role)
+  obtain ⟨hr, hne, ht⟩ := (tooFew_mem_ringErrs o _ _ _).mp hm
+  subst hr
+  simp only [polyErrSound, getRing_roleOf, hring, hne, Bool.not_false, Bool.true_and]
+  split
+  · rename_i q hq
+    have := ringToPts?_eq ring q hq
+    subst this
+    simpa using (tooFew_iff q).mp ht
+  · rfl
+
+/-- [T] error soundness: `NonFiniteCoord(role, i)` names an existing ring and the index of a
+coordinate of it that is not finite. -/
+theorem nonFinite_sound (o : Oracle) (p : XPoly) (role : Role) (i : Nat)
+    (he : PolyErr.nonFinite role i ∈ polyErrs o p) : polyErrSound p (.nonFinite role i) = true := by
+  obtain ⟨idx, ring, hring, hm⟩ := ringLocal_mem o p _ he (fun q => nonFinite_not_pair o q role i)
+  obtain ⟨hr, c, hc, hn⟩ := (nonFinite_mem_ringErrs o _ _ _ _).mp hm
+  subst hr
+  simp [polyErrSound, getRing_roleOf, hring, hc, hn]
+
+/-- [T] completeness of the non-finite clause: a polygon (non-empty exterior) with a non-finite
+coordinate anywhere is never valid, whatever the oracle. -/
+theorem nonFinite_rejected (o : Oracle) (p : XPoly) (hext : p.ext.isEmpty = false)
+    (idx : Nat) (ring : XRing) (hring : p.rings[idx]? = some ring) (c : XPt) (hc : c ∈ ring)
+    (hn : notFinite c = true) : polyErrs o p ≠ [] := by
+  obtain ⟨i, hi⟩ := (nonFinite_iff o (roleOf idx) ring).mpr ⟨c, hc, hn⟩
+  have : PolyErr.nonFinite (roleOf idx) i ∈ polyErrs o p := by
+    unfold polyErrs
+    simp only [hext, Bool.false_eq_true, if_false, List.mem_append, List.mem_flatMap]
+    left
+    exact ⟨(ring, idx), by rw [List.mem_zipIdx_iff_getElem?]; exact hring, hi⟩
+  intro h
+  rw [h] at this
+  simp at this
+
 end Geo.Proofs.C14
